@@ -190,7 +190,7 @@ class C09(Property):
     assumptions = [
         "'valid' is read from the docstrings: finite ScalarField, documented option values, |values| <= 2e6, vmin < vmax when both are numbers; when only one level is left to be determined automatically the supplied one lies outside the data range on the proper side",
         "perturbation modes are requested only on grids of dimension 2 or 3; perturbed renders only on compatible grids (see C03)",
-        "fields whose contrast is positive but below 1e-9 of their magnitude (not resolvable in double precision) are skipped and counted; exactly constant fields are judged",
+        "fields whose contrast is positive but below 1e-9 of their magnitude or below 1e-290 in absolute terms (not resolvable in double precision; numpy cannot form a 256-bin histogram) are skipped and counted; exactly constant fields are judged",
     ]
 
     def budget(self, tier):
@@ -213,7 +213,7 @@ class C09(Property):
         grid = build_grid(spec["grid"])
         data = make_field(grid, spec["field"])
         lo, hi = float(data.min()), float(data.max())
-        if 0 < hi - lo < 1e-9 * max(abs(lo), abs(hi)):
+        if 0 < hi - lo < max(1e-9 * max(abs(lo), abs(hi)), 1e-290):
             # contrast below 1e-9 of the magnitude (a few hundred ulps): the image is neither constant nor resolvable in double
             # precision (numpy cannot even form a 256-bin histogram of it); constant fields are generated and judged
             ctx.skip("sub-resolution-contrast")
@@ -312,6 +312,23 @@ class C09(Property):
         n_out = sum(len(tr) for tr in tracks)
         ctx.require(n_in == n_out, "track:count", f"{n_in} droplets in, {n_out} in tracks")
 
+    def _after_rejection(self, ctx, field):
+        """a documented rejection must leave nothing behind: the next valid requests on the same grid complete and are finite"""
+        from droplets import Emulsion
+        from droplets.image_analysis import locate_droplets
+
+        lo, hi = float(np.min(field.data)), float(np.max(field.data))
+        if 0 < hi - lo < max(1e-9 * max(abs(lo), abs(hi)), 1e-290):
+            return  # contrast not resolvable in double precision (see the assumptions)
+        for kw in (dict(), dict(refine=True), dict(threshold="otsu", minimal_radius=-np.inf)):
+            try:
+                res = locate_droplets(field, **kw)
+            except Exception as exc:  # noqa: BLE001
+                ctx.fail(f"after-rejection:raises:{type(exc).__name__}", f"valid request {kw} after a rejected one raised {type(exc).__name__}: {exc}")
+                return
+            ok = isinstance(res, Emulsion) and all(finite_droplet(d, not kw.get("refine", False)) is None for d in res)
+            ctx.require(ok, "after-rejection:not-finite", f"valid request {kw} after a rejected one returned {res}")
+
     def _invalid(self, spec, ctx):
         from pde import FieldCollection, ScalarField, VectorField
 
@@ -337,6 +354,7 @@ class C09(Property):
             grid = build_grid(spec["grid"])
             field = ScalarField(grid, np.random.default_rng(spec["seed"]).random(grid.shape))
             expect(ValueError, lambda: locate_droplets(field, modes=spec["modes"], refine=spec["refine"]), "modes-1d")
+            self._after_rejection(ctx, field)
         elif what == "dim-mismatch":
             grid = build_grid(spec["grid"])
             dd = spec["droplet_dim"]
@@ -345,6 +363,11 @@ class C09(Property):
             cls = getattr(droplets, spec["cls"])
             d = cls(np.zeros(dd), 1.0)
             expect(ValueError, lambda: d.get_phase_field(grid), "dim-mismatch")
+            # the rejected droplet and the grid stay usable: a droplet of the right dimension renders, the rejected one renders
+            # on a grid of its own dimension
+            ok = cls(np.zeros(grid.dim), 1.0).get_phase_field(grid)
+            ctx.require(bool(np.all(np.isfinite(ok.data))), "after-rejection:render", "render after a rejected request is not finite")
+            self._after_rejection(ctx, ScalarField(grid, np.asarray(ok.data, float)))
         elif what.startswith("not-a-scalarfield"):
             grid = build_grid(spec["grid"])
             sf = ScalarField(grid, 1.0)
@@ -353,6 +376,7 @@ class C09(Property):
                 expect(TypeError, lambda: refine_droplet(arg, droplets.DiffuseDroplet(np.zeros(2), 1.0, 0.5)), "not-a-scalarfield-refine")
             else:
                 expect(TypeError, lambda: locate_droplets(arg), "not-a-scalarfield")
+            self._after_rejection(ctx, ScalarField(grid, np.random.default_rng(spec.get("seed", 0)).random(grid.shape)))
         else:
             etc = EmulsionTimeCourse([droplets.Emulsion([droplets.SphericalDroplet([0.0], 1.0)])], [0])
             expect(ValueError, lambda: DropletTrackList.from_emulsion_time_course(etc, method="nearest"), "unknown-method")
